@@ -113,6 +113,87 @@ class Scenario:
             raise ValueError(act)
 
 
+class PairScenario(Scenario):
+    """Two fetches of the same object running concurrently on ONE NDNApp (their Interests share PIT nodes and one
+    Data answers both). Each fetch, looked at on its own, must still be a behaviour of SegFetch."""
+    def __init__(self, cfg, k=2):
+        self.k = k
+        self.ys = [[] for _ in range(k)]
+        self.errs = ['none'] * k
+        self.fins = [False] * k
+        super().__init__(cfg)
+        from ndn.app_support.segment_fetcher import segment_fetcher
+
+        async def validator(name, sig):
+            return not self.vfail_all
+
+        async def consume(i):
+            try:
+                async for c in segment_fetcher(self.app, PREFIX, timeout=LIFETIME, retry_times=cfg['retry'], validator=validator):
+                    b = bytes(c)
+                    self.ys[i].append(-2 if b == b'W' else int(b[1:]))
+            except ndn_types.InterestTimeout:
+                self.errs[i] = 'timeout'
+            except ndn_types.InterestNack:
+                self.errs[i] = 'nack'
+            except ndn_types.ValidationFailure:
+                self.errs[i] = 'vfail'
+            except BaseException as e:  # noqa
+                self.errs[i] = 'error:' + type(e).__name__
+            self.fins[i] = True
+        self.vfail_all = False
+        self.task.cancel()                 # the single consumer started by the base class is not used
+        self.sess.loop.settle()
+        self.face.out.clear()
+        self.seen = 0
+        self.tasks = [self.sess.spawn(consume(i)) for i in range(k)]
+        self.sess.loop.settle()
+
+    def respond(self, act, last):
+        self.vfail_all = (act == 'RespVFail')
+        super().respond('RespData' if act == 'RespVFail' else act, last)
+        self.vfail_all = False
+
+
+def record_pair(cfg, chooser, max_rounds=200):
+    """Returns (list of per-fetch event lists, problem or None)."""
+    sc = PairScenario(cfg)
+    evs = [[] for _ in range(sc.k)]
+    nsent = [0] * sc.k
+    problem = None
+    try:
+        def post(i):
+            return {'yielded': list(sc.ys[i]), 'nsent': nsent[i], 'err': sc.errs[i], 'fin': sc.fins[i]}
+        for _ in range(max_rounds):
+            new = sc.new_interests()
+            active = [i for i in range(sc.k) if not sc.fins[i]]
+            if not active:
+                break
+            if len(new) != len(active) or len({(x['t'], x['cbp']) for x in new}) > 1:
+                problem = 'concurrent fetches out of step: %d Interests %s for %d active fetches' % (
+                    len(new), sorted({x['t'] for x in new}), len(active))
+                break
+            last = new[0]
+            if last['t'] == -99:
+                problem = 'Interest for a name the object is not published under'
+                break
+            for i in active:
+                nsent[i] += 1
+                evs[i].append({'a': 'Send', 't': last['t'], 'cbp': last['cbp'], 'post': post(i)})
+            exists = (cfg['n'] > 0) if last['t'] == -1 else (last['t'] < cfg['n'])
+            act = chooser(exists)
+            sc.respond(act, last)
+            for i in active:
+                evs[i].append({'a': act, 'post': post(i)})
+        if sc.sess.loop.errors and not problem:
+            problem = 'background error %r' % (sc.sess.loop.errors[0].get('exception'),)
+    finally:
+        for t in getattr(sc, 'tasks', []):
+            t.cancel()
+        sc.close()
+    return evs, problem
+
+
 def record(cfg, chooser, max_events=400):
     """Run the real fetcher; chooser(target_exists, nth) -> response action. Returns event list."""
     sc = Scenario(cfg)
@@ -258,6 +339,29 @@ def run(ctx):
             if any(a in ('RespLost', 'RespNack', 'RespVFail') for a in acts) or cfg['disc'] > 0:
                 ctx.nt(['C', cfg, acts])
         ctx.sample({'kind': 'C-trace', 'cfg': recs[0]['cfg'], 'events': [e['a'] for e in recs[0]['ev']][:20]})
+        # two concurrent fetches of one object on one application: each must be a SegFetch behaviour on its own
+        npairs = 0
+        for i in range(ctx.pick(80, 1500)):
+            rng = ctx.rng
+            nseg = rng.randint(1, 6)
+            cfg = {'n': nseg, 'seg': True, 'fin': rng.choice([nseg - 1, nseg - 1, -1]), 'disc': rng.randrange(nseg),
+                   'retry': rng.randint(1, 3), 'deep': rng.random() < 0.3}
+            ploss = rng.choice([0, 0.2, 0.4])
+
+            def chooser2(exists, rng=rng, ploss=ploss):
+                if not exists:
+                    return 'RespLost'
+                x = rng.random()
+                return 'RespLost' if x < ploss else 'RespNack' if x < ploss + 0.03 else 'RespVFail' if x < ploss + 0.06 else 'RespData'
+            evs2, problem = record_pair(cfg, chooser2)
+            npairs += 1
+            if problem:
+                ctx.violation('C19/segment_fetcher/concurrent/' + problem.split(':')[0].replace(' ', '-')[:60], problem,
+                              {'kind': 'pair', 'cfg': cfg})
+            for ev in evs2:
+                recs.append({'cfg': cfg, 'ev': ev, 'pair': True})
+            ctx.nt(['P', cfg, [e['a'] for e in evs2[0]]])
+        ctx.note('C: %d concurrent pairs of fetches on one NDNApp' % npairs)
         rejected = judge(ctx, recs)
         ctx.traces += len(recs)
         ctx.evaluations += len(recs)
@@ -265,7 +369,7 @@ def run(ctx):
             rec = recs[i - 1]
             lno = int(l) if l else 0
             bad = rec['ev'][lno - 1] if 0 < lno <= len(rec['ev']) else None
-            ctx.violation('C19/segment_fetcher/trace/%s' % (bad['a'] if bad else 'end'),
+            ctx.violation('C19/segment_fetcher/%strace/%s' % ('concurrent-' if rec.get('pair') else '', bad['a'] if bad else 'end'),
                           'trace rejected by SegFetchTrace at event %s: %s' % (lno, json.dumps(bad)),
                           {'kind': 'trace', 'rec': rec, 'rejected_at': lno})
 
